@@ -3659,7 +3659,7 @@ int cg_discrete_ptset_write(int fn, int B, int Z,
     if (!((ptset_type == CGNS_ENUMV(PointList) && npnts > 0) ||
           (ptset_type == CGNS_ENUMV(PointRange) && npnts == 2))) {
         cgi_error("Invalid input:  npoint=%ld, point set type=%s",
-            (long)npnts, PointSetTypeName[ptset_type]);
+            (long)npnts, cg_PointSetTypeName(ptset_type));
         return CG_ERROR;
     }
     if (cg_index_dim(fn, B, Z, &index_dim)) return CG_ERROR;
@@ -8424,7 +8424,7 @@ int cg_sol_ptset_write(int fn, int B, int Z, const char *solname,
     if (!((ptset_type == CGNS_ENUMV(PointList) && npnts > 0) ||
           (ptset_type == CGNS_ENUMV(PointRange) && npnts == 2))) {
         cgi_error("Invalid input:  npoint=%ld, point set type=%s",
-            (long)npnts, PointSetTypeName[ptset_type]);
+            (long)npnts, cg_PointSetTypeName(ptset_type));
         return CG_ERROR;
     }
     if (cg_index_dim(fn, B, Z, &index_dim)) return CG_ERROR;
@@ -9242,7 +9242,7 @@ int cg_subreg_ptset_write(int fn, int B, int Z, const char *regname,
     if (!((ptset_type == CGNS_ENUMV(PointList) && npnts > 0) ||
           (ptset_type == CGNS_ENUMV(PointRange) && npnts == 2))) {
         cgi_error("Invalid input:  npoint=%ld, point set type=%s",
-            (long)npnts, PointSetTypeName[ptset_type]);
+            (long)npnts, cg_PointSetTypeName(ptset_type));
         return CG_ERROR;
     }
     if (cg_index_dim(fn, B, Z, &index_dim)) return CG_ERROR;
@@ -15037,7 +15037,7 @@ int cg_particle_sol_ptset_write(int fn, int B, int P, const char *solname,
    if (!((ptset_type == CGNS_ENUMV(PointList) && npnts > 0) ||
          (ptset_type == CGNS_ENUMV(PointRange) && npnts == 2))) {
        cgi_error("Invalid input:  npoint=%ld, point set type=%s",
-           (long)npnts, PointSetTypeName[ptset_type]);
+           (long)npnts, cg_PointSetTypeName(ptset_type));
        return CG_ERROR;
    }
 
@@ -20016,7 +20016,7 @@ int cg_ptset_write(CGNS_ENUMT(PointSetType_t) ptset_type, cgsize_t npnts,
      /* verify input */
     if(npnts == 0 || pnts == NULL) {
     cgi_error("Invalid input:  npoint=%ld, point set type=%s",
-                   npnts, PointSetTypeName[ptset_type]);
+                   npnts, cg_PointSetTypeName(ptset_type));
         return CG_ERROR;
     }
 
